@@ -81,6 +81,11 @@ def main_c14(run):
                                       f"compiled AST gives out={direct['out']} log={direct['log']} "
                                       f"globals={direct['globals']}",
                                       {"text": c.text, "script": c.script, "fault": c.fault, "supp": c.supp})
+                elif "compile_error" in direct:
+                    # the AST itself is rejected by compile(): the program is not one "the compiler
+                    # accepts" -- that is property C10's business
+                    run.cov["direct_compile_errors"] = run.cov.get("direct_compile_errors", 0) + 1
+                    continue
                 elif ("log" in c.obs) != ("log" in direct) and not ("runaway" in c.obs or "runaway" in direct):
                     run.violation("differs:" + c.text + "|" + c.tag,
                                   f"{c.text}: unparse path {sorted(c.obs)} vs direct {sorted(direct)}",
